@@ -44,7 +44,7 @@ def sign_for(crit):
 
 
 # ---------------------------------------------------------------- (A) batch protocol
-def check_batch(n, mix, repeats, crit, parallel, same_ids=False):
+def check_batch(n, mix, repeats, crit, parallel, same_ids=False, loaded=False):
     from artap.algorithm import DummyAlgorithm
     from artap.individual import Individual
     from .c_support import make_problem, reset_ids
@@ -68,9 +68,13 @@ def check_batch(n, mix, repeats, crit, parallel, same_ids=False):
             ind.costs_signed = [sign_for(crit) * (99.0 + k), True]
         if same_ids:
             ind.id = 7           # distinct designs that carry the same id (copies, reloaded individuals)
+        if loaded and mix[k]:
+            # an evaluated design as a store hands it out: through to_dict / JSON / from_dict
+            import json
+            ind = Individual.from_dict(json.loads(json.dumps(ind.to_dict())))
         batch.append(ind)
     out = []
-    desc = "n=%d evaluated-mix=%r repeats=%d criteria=%s parallel=%r same_ids=%r" % (n, mix, repeats, crit, parallel, same_ids)
+    desc = "n=%d evaluated-mix=%r repeats=%d criteria=%s parallel=%r same_ids=%r loaded=%r" % (n, mix, repeats, crit, parallel, same_ids, loaded)
     from ..core.sched import default_parallel
     for rep in range(repeats):
         before = len(problem.h_log)
@@ -93,7 +97,7 @@ def check_batch(n, mix, repeats, crit, parallel, same_ids=False):
                 kind = "order-or-identity"
             out.append(("C05:batch:call-log:%s" % kind, "round %d: objective calls %r, expected %r; %s" % (rep, [c[1] for c in calls], [c[1] for c in exp_calls], desc)))
     for k, ind in enumerate(batch):
-        if ind.state != Individual.State.EVALUATED:
+        if ind.state != Individual.State.EVALUATED and not (loaded and mix[k] and ind.state == Individual.to_string(Individual.State.EVALUATED)):
             out.append(("C05:batch:state", "design %d state %r; %s" % (k, ind.state, desc)))
         if mix[k]:
             if ind.costs != [99.0 + k]:
@@ -352,6 +356,9 @@ def _shard(shard, col: Collector):
                         if n >= 2 and repeats == 1:
                             rec("batch", {"n": n, "mix": mix, "repeats": repeats, "crit": crit, "parallel": parallel, "same_ids": True},
                                 check_batch(n, mix, repeats, crit, parallel, True), not all(mix))
+                        if any(mix) and repeats <= 2:
+                            rec("batch", {"n": n, "mix": mix, "repeats": repeats, "crit": crit, "parallel": parallel, "loaded": True},
+                                check_batch(n, mix, repeats, crit, parallel, False, True), True)
         col.sample({"kind": "batch", "n": 3, "already_evaluated": [False, True, False], "repeats": 2, "parallel": parallel}, 1)
     elif kind == "signed":
         _, m = shard
@@ -401,7 +408,7 @@ def _shard(shard, col: Collector):
 
 def replay(sub, case):
     if sub == "batch":
-        return check_batch(case["n"], tuple(case["mix"]), case["repeats"], case["crit"], case["parallel"], case.get("same_ids", False))
+        return check_batch(case["n"], tuple(case["mix"]), case["repeats"], case["crit"], case["parallel"], case.get("same_ids", False), case.get("loaded", False))
     if sub == "signed":
         return check_signed(tuple(case["costs"]), tuple(case["crits"]), case["prec"])
     if sub == "constraints":
